@@ -153,9 +153,6 @@ func (c *connState) retainMap(name string, m wire.Parameters) {
 }
 
 func (c *connState) checkRetained(where string) {
-	if len(c.retainedVals) == 0 {
-		return
-	}
 	for _, r := range c.retainedVals {
 		cur := r.s
 		if r.b != nil {
